@@ -52,20 +52,42 @@ Definition ostr_eqb (a b : option str) : bool :=
   | _, _ => false
   end.
 
+(* keys of the name maps: (compared case-insensitively?, name) *)
+Definition xk_eqb (a b : bool * str) : bool := Bool.eqb (fst a) (fst b) && str_eqb (snd a) (snd b).
+Definition xko_eqb (a b : bool * option str) : bool := Bool.eqb (fst a) (fst b) && ostr_eqb (snd a) (snd b).
+
 Section Filter.
 Variable key : id -> option str.
+Variable fold : id -> bool.              (* patterns._folds_case(element, key): the key is EDIF.identifier and
+                                            the element is under the EDIF policy (element[".NS"] == "EDIF") *)
 Variable mt : str -> str -> bool.        (* mt pattern value *)
 Variable ab : str -> bool.
 
 Definition val (e : id) : str := value_or_empty (key e).          (* e[key] if key in e else "" *)
 Definition has_key (e : id) : bool := match key e with Some _ => true | None => false end.
 Definition em (p : str) (e : id) : bool := mt p (val e).
-Definition any_match (pats : list str) (e : id) : bool := existsb (fun p => em p e) pats.
+(* patterns._value_equals_pattern(element, key, value, pattern): an exact pattern is compared the way the
+   namespace of the element compares - EDIF identifiers case-insensitively under the EDIF policy *)
+Definition xeq (p : str) (e : id) : bool :=
+  if fold e then str_eqb (lower p) (lower (val e)) else str_eqb p (val e).
+(* does the pattern select the element: exact patterns by xeq, the others by _value_matches_pattern *)
+Definition sm (p : str) (e : id) : bool := if ab p then xeq p e else em p e.
+Definition any_match (pats : list str) (e : id) : bool := existsb (fun p => sm p e) pats.
+
+(* patterns._exact_key(element, key, value): the key under which an element is filed for exact patterns *)
+Definition xkey (e : id) : bool * str := (fold e, if fold e then lower (val e) else val e).
+(* patterns._name_key(element, key, value): the key of the name maps that wildcard patterns walk too *)
+Definition nkey (e : id) : bool * str := (fold e, val e).
+(* does an exact pattern equal a name key *)
+Definition xm (p : str) (k : bool * str) : bool :=
+  if fst k then str_eqb (lower p) (lower (snd k)) else str_eqb p (snd k).
+(* does a pattern select a name key *)
+Definition nmt (p : str) (k : bool * str) : bool := if ab p then xm p k else mt p (snd k).
 
 (* global_service.lookup returns a list. When no fast lookup is registered for the key: every child
-   with  key in child and child[key] == value  (in child order) *)
+   with  key in child and _value_equals_pattern(child, key, child[key], value)  (in child order) *)
 Definition scan_lookup (children : list id) (p : str) : list id :=
-  filter (fun c => match key c with Some w => str_eqb p w | None => false end) children.
+  filter (fun c => has_key c && xeq p c) children.
 
 (* a registered lookup answers with the one element its index holds, or None:
    "return [] if result is None else [result]" *)
@@ -124,24 +146,24 @@ Fixpoint stageA (nk : bool) (parents : list ((str -> list id) * list id)) (pats 
 (* stage B: collection  "for o in others: if o in found: continue; found.add(o);
                           namemap[name].append(o)" *)
 
-Fixpoint collect (others : list id) (found : list id) (nm : list (str * list id))
-  : list id * list (str * list id) :=
+Fixpoint collect (others : list id) (found : list id) (nm : list ((bool * str) * list id))
+  : list id * list ((bool * str) * list id) :=
   match others with
   | [] => (found, nm)
   | e :: rest => if memb e found then collect rest found nm
-                 else collect rest (e :: found) (nm_add str_eqb (val e) e nm)
+                 else collect rest (e :: found) (nm_add xk_eqb (nkey e) e nm)
   end.
 
 (* get_instances, get_libraries:
      "yielded, found = found, set()
       for o in others: if o in yielded or o in found: continue; found.add(o); namemap[name].append(o)"
    [found] restarts empty: it holds the collected elements that no pattern has selected yet *)
-Fixpoint collect_fresh (others : list id) (yielded found : list id) (nm : list (str * list id))
-  : list id * list (str * list id) :=
+Fixpoint collect_fresh (others : list id) (yielded found : list id) (nm : list ((bool * str) * list id))
+  : list id * list ((bool * str) * list id) :=
   match others with
   | [] => (found, nm)
   | e :: rest => if memb e yielded || memb e found then collect_fresh rest yielded found nm
-                 else collect_fresh rest yielded (e :: found) (nm_add str_eqb (val e) e nm)
+                 else collect_fresh rest yielded (e :: found) (nm_add xk_eqb (xkey e) e nm)
   end.
 
 (* "for x in result: if x in live: live.remove(x); yield x" *)
@@ -153,14 +175,19 @@ Fixpoint take (es : list id) (live : list id) : list id * list id :=
                  else take rest live
   end.
 
-(* absolute -> the elements of namemap[pattern] that are still in [found], removed from it;
-   otherwise every element of [found] that matches, removed from found *)
-Fixpoint stageB_found_pats (pats : list str) (found : list id) (nm : list (str * list id)) : list id :=
+(* the exact keys an absolute pattern is looked up under (patterns._exact_keys): as it stands, and
+   lower-cased among the elements that compare case-insensitively *)
+Definition xlookup (p : str) (nm : list ((bool * str) * list id)) : list id :=
+  nm_get xk_eqb (false, p) nm ++ nm_get xk_eqb (true, lower p) nm.
+
+(* absolute -> the elements of namemap[k], k an exact key of the pattern, that are still in [found],
+   removed from it; otherwise every element of [found] that matches, removed from found *)
+Fixpoint stageB_found_pats (pats : list str) (found : list id) (nm : list ((bool * str) * list id)) : list id :=
   match pats with
   | [] => []
   | p :: ps =>
       if ab p then
-        let '(y, found') := take (nm_get str_eqb p nm) found in
+        let '(y, found') := take (xlookup p nm) found in
         y ++ stageB_found_pats ps found' nm
       else filter (em p) found ++ stageB_found_pats ps (filter (fun e => negb (em p e)) found) nm
   end.
@@ -171,18 +198,16 @@ Definition stageB_found (others : list id) (pats : list str) (yielded : list id)
   | _ => let '(found', nm) := collect_fresh others yielded [] [] in stageB_found_pats pats found' nm
   end.
 
-(* get_definitions, get_ports, get_cables:
-   absolute -> namemap[pattern], and "del namemap[pattern]";
-   otherwise every name of the namemap that matches: its elements, and the name is deleted *)
-Fixpoint stageB_names_pats (pats : list str) (nm : list (str * list id)) : list id :=
+(* get_definitions, get_ports, get_cables: the name map is keyed by _name_key = (folds, name);
+   absolute -> the keys equal to the pattern (the key (False, pattern), and the case-insensitive keys
+   equal up to case): their elements, and the keys are deleted;
+   otherwise every key of the namemap whose name matches: its elements, and the key is deleted *)
+Fixpoint stageB_names_pats (pats : list str) (nm : list ((bool * str) * list id)) : list id :=
   match pats with
   | [] => []
   | p :: ps =>
-      if ab p then
-        nm_get str_eqb p nm ++ stageB_names_pats ps (nm_del str_eqb p nm)
-      else
-        concat (map snd (filter (fun ne => mt p (fst ne)) nm))
-        ++ stageB_names_pats ps (filter (fun ne => negb (mt p (fst ne))) nm)
+      concat (map snd (filter (fun ne => nmt p (fst ne)) nm))
+      ++ stageB_names_pats ps (filter (fun ne => negb (nmt p (fst ne))) nm)
   end.
 
 Definition stageB_names (others : list id) (pats : list str) (found : list id) : list id :=
@@ -191,21 +216,25 @@ Definition stageB_names (others : list id) (pats : list str) (found : list id) :
   | _ => let '(_, nm) := collect others found [] in stageB_names_pats pats nm
   end.
 
-(* get_netlists: every netlist reached is collected once; namemap keyed by obj.get(key, None) *)
-Fixpoint collect_netlists (objs : list id) (found : list id) (nm : list (option str * list id))
-  : list id * list (option str * list id) :=
+(* get_netlists: every netlist reached is collected once; namemap keyed by the exact key of
+   obj.get(key, None) *)
+Definition xkeyo (e : id) : bool * option str :=
+  (fold e, match key e with Some v => Some (if fold e then lower v else v) | None => None end).
+
+Fixpoint collect_netlists (objs : list id) (found : list id) (nm : list ((bool * option str) * list id))
+  : list id * list ((bool * option str) * list id) :=
   match objs with
   | [] => (found, nm)
   | e :: rest => if memb e found then collect_netlists rest found nm
-                 else collect_netlists rest (e :: found) (nm_add ostr_eqb (key e) e nm)
+                 else collect_netlists rest (e :: found) (nm_add xko_eqb (xkeyo e) e nm)
   end.
 
-Fixpoint stageB_netlists_pats (pats : list str) (found : list id) (nm : list (option str * list id)) : list id :=
+Fixpoint stageB_netlists_pats (pats : list str) (found : list id) (nm : list ((bool * option str) * list id)) : list id :=
   match pats with
   | [] => []
   | p :: ps =>
       if ab p then
-        let '(y, found') := take (nm_get ostr_eqb (Some p) nm) found in
+        let '(y, found') := take (nm_get xko_eqb (false, Some p) nm ++ nm_get xko_eqb (true, Some (lower p)) nm) found in
         y ++ stageB_netlists_pats ps found' nm
       else filter (em p) found ++ stageB_netlists_pats ps (filter (fun e => negb (em p e)) found) nm
   end.
@@ -257,12 +286,12 @@ End Filter.
 (* ------------------------------------------------------------------------------------------ *)
 (* the stages with patterns.py plugged in (what the correspondence run executes) *)
 
-Definition run_query (is_case is_re : bool) (key : id -> option str) (nk : bool) (bk : bkind)
+Definition run_query (is_case is_re : bool) (key : id -> option str) (fold : id -> bool) (nk : bool) (bk : bkind)
            (parents : list ((str -> list id) * list id)) (others : list id) (pats : list str) : list id :=
-  query key (matches_b is_case is_re) (absolute_b is_case is_re) nk bk parents others pats.
+  query key fold (matches_b is_case is_re) (absolute_b is_case is_re) nk bk parents others pats.
 
-Definition run_netlists (is_case is_re : bool) (key : id -> option str) (objs : list id) (pats : list str) : list id :=
-  stageB_netlists key (matches_b is_case is_re) (absolute_b is_case is_re) objs pats.
+Definition run_netlists (is_case is_re : bool) (key : id -> option str) (fold : id -> bool) (objs : list id) (pats : list str) : list id :=
+  stageB_netlists key fold (matches_b is_case is_re) (absolute_b is_case is_re) objs pats.
 
 Definition run_hier (is_case is_re : bool) (hname : id -> str) (refs in_yield : list id) (pats : list str) : list id :=
   stageB_hier (matches_b is_case is_re) (absolute_b is_case is_re) hname refs in_yield pats.
